@@ -589,6 +589,33 @@ class Repo:
                                 n._module = m
                     self._index_all()
                     self._fold_temps()      # temporaries introduced for the inlined helpers' parameters
+        self.drifted = self._signature_drift() if inline else {}
+
+    def _signature_drift(self):
+        """{qual: (reference parameter list, current one)} for functions of the reference tree whose parameters were reordered,
+        added or removed (a pure rename at the same position is not drift). Rules that read such a function's parameters - or
+        calls of it - positionally report "cannot decide" instead of a verdict (sa/main.py)."""
+        import json
+        ref = os.path.join(os.path.dirname(os.path.abspath(__file__)), "ref", "known_signatures.json")
+        try:
+            with open(ref) as fh:
+                known = json.load(fh)
+        except (OSError, ValueError):
+            return {}
+        out = {}
+        for q, f in self.funcs.items():
+            if q not in known:
+                continue
+            a = f.node.args
+            now = [x.arg for x in a.posonlyargs + a.args] + (["*" + a.vararg.arg] if a.vararg else []) + \
+                [x.arg for x in a.kwonlyargs] + (["**" + a.kwarg.arg] if a.kwarg else [])
+            was = known[q]
+            if now == was:
+                continue
+            if len(now) == len(was) and all(x == y or (x not in was and y not in now) for x, y in zip(now, was)):
+                continue        # renamed in place
+            out[q] = (was, now)
+        return out
 
     def _fold_temps(self):
         from . import tempinline as TI
